@@ -454,3 +454,98 @@ def check_writeback(ctx, repo):
 def writeback(ctx):
     """Drag write-back is in place, key-addressed through key2idx, and followed by re-evaluation (TS/OWN)."""
     check_writeback(ctx, ctx.repo)
+
+
+# --------------------------------------------------------------------------- subject plumbing
+@rule("C20.subjects", props=["C20"], min_instances=6, mutants=[
+    ("subjects encode the raw subjects of a single callable without calling it", ("graph", "            pre_subjects = s()\n            if not isinstance(pre_subjects, TREE_TYPES):", "            pre_subjects = s\n            if not isinstance(pre_subjects, TREE_TYPES):")),
+    ("message handler does not refresh", ("graph", "            self.subjects = self.get_subjects()\n\n    def _get_pre_subjects", "            self.get_subjects()\n\n    def _get_pre_subjects")),
+    ("graph() drops the options", ("algebra", "            raw_subjects=subjects,\n            options=options,", "            raw_subjects=subjects,\n            options={},")),
+    ("camera option passed through unencoded", ("graph", "            options['camera'] = list(encode(options['camera']))[0]", "            options['camera'] = options['camera']")),
+])
+def subjects(ctx):
+    """Subject plumbing: a single zero-argument callable is called for the subject list, subjects are the walked
+    encoding of the prepared subjects, an update message re-evaluates them, Algebra.graph hands subjects and
+    options through, a multivector-valued camera option is encoded."""
+    from ..astx import NoValue
+    repo = ctx.repo
+    alg = rep_algebra(3)
+    a = mv_obj(alg, (1,), [Val("A")])
+    b = mv_obj(alg, (2, 4), [Val("B"), Val("C")])
+    pa, pb = {"mv": ["A"], "keys": (1,)}, {"mv": ["B", "C"], "keys": (2, 4)}
+
+    def norm(x):
+        if isinstance(x, dict):
+            return {k: norm(v) for k, v in x.items()}
+        if isinstance(x, (list, tuple)):
+            return [norm(v) for v in x]
+        if isinstance(x, Obj):
+            return val_repr(x)
+        return x
+    q = "graph.GraphWidget._get_pre_subjects"
+    fn = ctx.func(q)
+    lam = Closure(ast.parse("lambda: [A, 255, B]", mode="eval").body, {"A": a, "B": b}, "graph")
+    lam1 = Closure(ast.parse("lambda: A", mode="eval").body, {"A": a}, "graph")
+    for label, raw, want in (("plain subjects", [255, a, b], [255, a, b]), ("single callable returning a list", [lam], [a, 255, b]),
+                             ("single callable returning one subject", [lam1], [a]), ("single multivector", [a], [a])):
+        c = f"{q}#{label}"
+        try:
+            out = make_interp(repo).run(q, [widget(alg, raw_subjects=raw)])
+        except NoValue as exc:
+            raise Unknown(c, str(exc), fn)
+        got = list(out[1]) if out[0] == "return" and isinstance(out[1], (list, tuple)) else None
+        if got is not None and len(got) == len(want) and all(g is w or g == w for g, w in zip(got, want)):
+            ctx.ok(c, fn)
+        else:
+            ctx.violation(c, f"prepared subjects for {label} are {norm(got) if got is not None else out!r}", fn)
+    # get_subjects = walker(encode(pre_subjects, root=True))
+    q = "graph.GraphWidget.get_subjects"
+    fn = ctx.func(q)
+    try:
+        out = make_interp(repo).run(q, [widget(alg, raw_subjects=[lam])])
+    except NoValue as exc:
+        raise Unknown(q, str(exc), fn)
+    if out[0] == "return" and norm(out[1]) == norm([pa, 255, pb]):
+        ctx.ok(q, fn)
+    else:
+        ctx.violation(q, f"subjects of a single callable returning [A, 255, B] are {norm(out[1]) if out[0] == 'return' else out!r}, "
+                         f"expected {norm([pa, 255, pb])}", fn)
+    # update message re-evaluates
+    q = "graph.GraphWidget._handle_custom_msg"
+    fn = ctx.func(q)
+    w = widget(alg, raw_subjects=[a], subjects="STALE")
+    try:
+        out = make_interp(repo).run(q, [w, {"type": "update_mvs"}, []])
+    except NoValue as exc:
+        raise Unknown(q, str(exc), fn)
+    if norm(w.attrs.get("subjects")) == norm([pa]):
+        ctx.ok(q, fn)
+    else:
+        ctx.violation(q, f"after an 'update_mvs' message subjects are {norm(w.attrs.get('subjects'))!r}, expected the "
+                         f"re-evaluated subjects {norm([pa])}", fn)
+    # Algebra.graph hands everything through
+    q = "algebra.Algebra.graph"
+    fn = ctx.func(q)
+    seen = {}
+    gw = Obj("widget-class", call=lambda **k: (seen.update(k), Obj("GraphWidget"))[1])
+    try:
+        out = make_interp(repo).run(q, [alg, 255, a], {"graph_widget": gw, "grid": 1, "lineWidth": 3})
+    except NoValue as exc:
+        raise Unknown(q, str(exc), fn)
+    if seen.get("algebra") is alg and list(seen.get("raw_subjects", ())) == [255, a] and seen.get("options") == {"grid": 1, "lineWidth": 3}:
+        ctx.ok(q, fn)
+    else:
+        ctx.violation(q, f"Algebra.graph constructs the widget with {norm({k: v for k, v in seen.items() if k != 'algebra'})}, expected "
+                         f"raw_subjects=(255, A) and options={{'grid': 1, 'lineWidth': 3}} for this algebra", fn)
+    # camera option
+    q = "graph.GraphWidget._valid_options"
+    fn = ctx.func(q)
+    try:
+        out = make_interp(repo).run(q, [widget(alg), {"value": {"camera": a, "grid": 1}}])
+    except NoValue as exc:
+        raise Unknown(q, str(exc), fn)
+    if out[0] == "return" and norm(out[1]) == {"camera": norm(pa), "grid": 1}:
+        ctx.ok(q, fn)
+    else:
+        ctx.violation(q, f"options with a multivector camera are validated to {norm(out[1]) if out[0] == 'return' else out!r}, expected the "
+                         f"camera encoded as {norm(pa)}", fn)
